@@ -466,8 +466,11 @@ def _finish(pid, hname, h, tier, seed, results, real, t0, limits, conformance=''
         wall_s=round(time.time() - t0, 2), violations=n_viol, exit_status=status)
     if ev['coverage']['states'] == 0:
         ev['coverage']['states'] = 0
-    os.makedirs(os.path.join(ROOT, 'evidence'), exist_ok=True)
-    json.dump(ev, open(os.path.join(ROOT, 'evidence', pid + '.json'), 'w'), indent=1, default=str)
+    # evidence describes /repo; build-time runs against a mutated copy (VCHECK_REPO) must not overwrite it
+    evdir = os.environ.get('VCHECK_EVIDENCE_DIR') or (os.path.join(ROOT, 'evidence') if 'VCHECK_REPO' not in os.environ
+                                                      else os.path.join('/tmp', 'vcheck_mutant_evidence'))
+    os.makedirs(evdir, exist_ok=True)
+    json.dump(ev, open(os.path.join(evdir, pid + '.json'), 'w'), indent=1, default=str)
 
     if os.environ.get('VCHECK_STATS'):
         agg = {}
